@@ -100,7 +100,7 @@ func registerStandardExt() {
 			panic(err)
 		}
 	}
-	for _, p := range []psatoken.IProfile{ExtLaxIDProfile{}, ExtDefaultingProfile{}, ExtShadowProfile{}} {
+	for _, p := range []psatoken.IProfile{ExtLaxIDProfile{}, ExtDefaultingProfile{}, ExtShadowProfile{}, ExtOddFieldsProfile{}} {
 		if _, _, ok := psatoken.VerifRegistryEntry(p.GetName()); !ok {
 			if err := psatoken.RegisterProfile(p); err != nil {
 				panic(err)
@@ -578,4 +578,51 @@ func (ExtShadowProfile) GetClaims() psatoken.IClaims {
 		panic(err)
 	}
 	return &ExtShadowClaims{P2Claims: psatoken.P2Claims{Profile: &ep, SwComponents: &psatoken.SwComponents[*psatoken.SwComponent]{}, CanonicalProfile: ExtShadowName}}
+}
+
+// ExtOddFieldsClaims: claims whose CBOR keys need more than 32 bits, and a plain (non-pointer) list claim tagged
+// omitempty whose accessor tells "absent" (nil) from "present and empty".
+type ExtOddFieldsClaims struct {
+	psatoken.P2Claims
+	Big   *string  `cbor:"4294967301,keyasint,omitempty" json:"big,omitempty"`
+	Neg   *int64   `cbor:"-4294967302,keyasint,omitempty" json:"neg,omitempty"`
+	Notes []string `cbor:"-75300,keyasint,omitempty" json:"notes,omitempty"`
+}
+
+const ExtOddFieldsName = "http://example.com/psa/odd-fields"
+
+func (o *ExtOddFieldsClaims) Validate() error { return psatoken.ValidateClaims(o) }
+func (o ExtOddFieldsClaims) MarshalCBOR() ([]byte, error) {
+	return encoding.SerializeStructToCBOR(extEM, &o)
+}
+func (o *ExtOddFieldsClaims) UnmarshalCBOR(d []byte) error {
+	return encoding.PopulateStructFromCBOR(extDM, d, o)
+}
+func (o ExtOddFieldsClaims) MarshalJSON() ([]byte, error)  { return encoding.SerializeStructToJSON(&o) }
+func (o *ExtOddFieldsClaims) UnmarshalJSON(d []byte) error { return encoding.PopulateStructFromJSON(d, o) }
+
+// Describe renders the profile's own claims (nil and empty list are different things).
+func (o *ExtOddFieldsClaims) Describe() string {
+	s := "big=absent"
+	if o.Big != nil {
+		s = "big=" + *o.Big
+	}
+	if o.Neg != nil {
+		s += fmt.Sprint(" neg=", *o.Neg)
+	}
+	if o.Notes == nil {
+		return s + " notes=absent"
+	}
+	return s + fmt.Sprintf(" notes=%q", o.Notes)
+}
+
+type ExtOddFieldsProfile struct{}
+
+func (ExtOddFieldsProfile) GetName() string { return ExtOddFieldsName }
+func (ExtOddFieldsProfile) GetClaims() psatoken.IClaims {
+	ep := eat.Profile{}
+	if err := ep.Set(ExtOddFieldsName); err != nil {
+		panic(err)
+	}
+	return &ExtOddFieldsClaims{P2Claims: psatoken.P2Claims{Profile: &ep, SwComponents: &psatoken.SwComponents[*psatoken.SwComponent]{}, CanonicalProfile: ExtOddFieldsName}}
 }
